@@ -3,8 +3,10 @@ package getoptions
 // Replay template for Parse: determinism of the reported diagnostic (C20) and the required-option rule (C11).
 
 import (
+	"bytes"
 	"fmt"
 	"os"
+	"regexp"
 	"strings"
 	"testing"
 )
@@ -28,6 +30,47 @@ func TestGovcReplay(t *testing.T) {
 		t.Logf("messages over 300 runs: %v", seen)
 		if len(seen) != 1 {
 			t.Fatalf("GOVC-REPLAY-CONFIRMED: the same definition and input produced %d different error messages: %v", len(seen), seen)
+		}
+	}
+	if strings.Contains(obl, "comp.words") {
+		// the words the completion walk receives are the pieces of COMP_LINE between runs of ASCII white space
+		// (a trailing empty word may be dropped): compare Parse's completion output with a direct walk over the reference words
+		build := func() *GetOpt {
+			opt := New()
+			opt.String("city", "", opt.SuggestedValues("New\u00a0York", "New\u3000Delhi", "Paris"))
+			opt.String("msg", "")
+			log := opt.NewCommand("log", "")
+			log.ArgCompletions("San\u00a0Jose", "San\u00a0Juan", "Lima")
+			opt.NewCommand("lower", "")
+			show := opt.NewCommand("show", "")
+			show.NewCommand("lower", "")
+			return opt
+		}
+		ref := regexp.MustCompile("[\t\n\f\r ]+")
+		lines := []string{"./program lo", "./program --city=New\u00a0Y", "./program --msg=fix\u00a0show lo", "./program log San\u00a0", "./program --msg=a\u3000show lo",
+			"./program --msg=a\vshow lo", "./program --msg=a\u0085show lo", "./program --msg=a\u202fshow lo", "./program  show  lo", "./program\tshow lo", "./program show ", " ./program lo"}
+		oldExit, oldCW := exitFn, completionWriter
+		defer func() { exitFn, completionWriter = oldExit, oldCW }()
+		exitFn = func(int) {}
+		for _, line := range lines {
+			for _, args := range [][]string{{"./program", "lo", "./program"}, {"./program", "", "./program"}, {}} {
+				words := ref.Split(line, -1)
+				if len(words) > 0 && words[len(words)-1] == "" && len(args) > 2 && args[1] != "" {
+					words = words[:len(words)-1]
+				}
+				_, want, werr := parseCLIArgs("bash", build().programTree, words, Normal)
+				var buf bytes.Buffer
+				completionWriter = &buf
+				os.Setenv("COMP_LINE", line)
+				build().Parse(args)
+				os.Unsetenv("COMP_LINE")
+				if werr != nil {
+					continue
+				}
+				if got := buf.String(); got != strings.Join(want, "\n")+"\n" {
+					t.Fatalf("GOVC-REPLAY-CONFIRMED: COMP_LINE %q: completion printed %q, the walk over the words %q gives %q", line, got, words, want)
+				}
+			}
 		}
 	}
 	fmt.Println("GOVC-REPLAY-NOT-REPRODUCED")
